@@ -194,11 +194,53 @@ def flatten(prefix, v, out):
         out[prefix[:-1]] = v
 
 
+SIGFIELDS = {
+    "C01_Gating": ["duringShutdown", "relaunch", "doneBefore"],
+    "C02_RelaunchOnlyIfPolicy": ["relaunch"],
+    "C02_NoRelaunchAfterStop": ["stopAcked", "afterShutdown"],
+    "C03_NothingAliveAfterShutdown": ["aliveAny", "reportedRunning"],
+    "C03_NoLaunchAfterShutdown": ["relaunch", "doneBefore"],
+    "C03_RunReturns": ["phase", "blocked"],
+    "C04_NoStuck": ["phase", "blocked"],
+    "C12_ShutdownCompletes": ["phase", "blocked"],
+    "C04_ExitCode": ["codeClass"],
+    "C05_SkippedNeverLaunched": ["duringShutdown", "relaunch"],
+    "C05_SkippedAtRest": ["notSkippedWhy"],
+    "C08_AtMostOneAlive": ["ev"],
+    "C08_StopNoRelaunch": ["relaunch"],
+    "C08_StartResult": ["ok", "spawns", "known"],
+    "C08_RestartResult": ["ok", "spawns", "known"],
+    "C08_UnknownNameFails": ["op", "ok"],
+    "C09_LegalTransition": ["from", "to"],
+    "C09_NoTransientAtRest": ["transientKinds"],
+    "C09_FailedHasNonZeroExit": ["zeroExitKinds"],
+    "C09_ObservedTruth": ["status", "isRunning", "aliveAll", "aliveAny"],
+    "C20_NoPanic": ["op", "site"],
+}
+
+
+def signature(inv, v):
+    """Small, stable abstract context of a violation (DESIGN.md section 5)."""
+    last = dict(v["last"])
+    if "transient" in last:
+        last["transientKinds"] = sorted({"%s/%s%s" % (t[1], "launched" if t[2] else "neverLaunched", "/skippedFirst" if len(t) > 3 and t[3] else "") for t in last["transient"]})
+    if "zeroExit" in last:
+        last["zeroExitKinds"] = sorted({t[1] for t in last["zeroExit"]})
+    sig = {k: last.get(k) for k in SIGFIELDS.get(inv, [])}
+    sig.update({"ctx." + k: x for k, x in v["ctx"].items()})
+    return sig
+
+
 def viol_facts(v):
     facts = {}
     flatten("last.", v["last"], facts)
     flatten("ctx.", v["ctx"], facts)
     facts["family"] = v["sid"].split("-")[0]
+    last = v["last"]
+    if "transient" in last:
+        facts["last.transientKinds"] = sorted({"%s/%s%s" % (t[1], "launched" if t[2] else "neverLaunched", "/skippedFirst" if len(t) > 3 and t[3] else "") for t in last["transient"]})
+    if "zeroExit" in last:
+        facts["last.zeroExitKinds"] = sorted({t[1] for t in last["zeroExit"]})
     return facts
 
 
